@@ -36,10 +36,10 @@ TB_PT = ("Trusted: TLC 1.8 + CommunityModules; PageTables.tla as the statement o
          ">= 256 cannot be dereferenced in a user process.")
 
 CLAIMS.update({
-    "C01": dict(ref="§5 C01", tech="TLA+ state machine of the page-table hierarchy + hardware walk (PageTables.tla) model-checked exhaustively with TLC over small universes (invariant WalkIsHistory, ParentRights); TLC trace validation (Trace_PT.tla) of recorded call histories of the real MappedPageTable/OffsetPageTable with raw-memory comparison after every call",
+    "C01": dict(ref="§5 C01", tech="TLA+ state machine of the page-table hierarchy + hardware walk (PageTables.tla) model-checked exhaustively with TLC over small universes (invariant WalkIsHistory, ParentRights); TLC trace validation (Trace_PT.tla) of recorded call histories of the real MappedPageTable/OffsetPageTable with raw-memory comparison after every call; specification -> implementation replay of a stratified sample (thorough: all) of the TLC-generated transitions with the pre-state injected; the PAT bit of huge leaves is modelled",
                 text="TLC explores every reachable hierarchy of the MC_PT universe and every call from each (3 sizes nested, all allocator failure schedules, unmap, update_flags, set_flags_p4-p2, clean-up of every range) and checks that an independent hardware-style walk equals what the history of successful calls dictates; the real mappers are driven on seeded random histories over all 512 indices / both halves / frames up to 2^52, and TLC validates each call: result, raw changed table slots = specification's next state, and translate/translate_addr/translate_page of probe addresses = hardware walk of the specification's table memory = history.",
                 note=TB_PT),
-    "C02": dict(ref="§5 C02", tech="TLA+ action properties ErrorIsNoOp / NoPhantomSuccess on PageTables.tla checked by TLC for every transition of the small universe (all allocator failure schedules); TLC trace validation of error-heavy histories of the real mappers (error kind + raw memory unchanged)",
+    "C02": dict(ref="§5 C02", tech="TLA+ action properties ErrorIsNoOp / NoPhantomSuccess on PageTables.tla checked by TLC for every transition of the small universe (all allocator failure schedules); TLC trace validation of error-heavy histories of the real mappers (error kind + raw memory unchanged); the same stratified replay of TLC-generated transitions on all three mapper kinds",
                 text="For every reachable state x every operation x every failure schedule of the MC_PT universe TLC checks that an error changes no translation and that unmap/update/translate_page succeed only for a mapping the history holds; on the real crate an error-heavy mix (allocator failing at the 1st/2nd/3rd request of half of the maps) is recorded and each call must return exactly the documented error kind (any error where the documentation is silent), identically for both mapper kinds, with raw table memory unchanged except allowed parent-flag widening and freshly linked zeroed tables. Found and fixed F4, F6, F7 (MappedPageTable).",
                 note=TB_PT),
     "C09": dict(ref="§5 C09", tech="TLA+ spec: allocation bounds / tree shape invariants checked by TLC; TLC trace validation of allocator conversation, touched-frame set, whole-arena diff and complete contents of new tables over junk-filled simulated physical memory",
@@ -56,7 +56,7 @@ TB_CPU = ("Trusted: TLC 1.8 + CommunityModules; Cpu.tla's transcription of instr
           "xgetbv, mov r,sreg) are observed natively or through hook H2. invlpgb/tlbsync are #UD on this Intel host and are emulated from the APM description.")
 
 CLAIMS.update({
-    "C11": dict(ref="§5 C11", tech="TLA+ spec of TLB-invalidation requests (Cpu.tla: INVLPG/INVPCID/INVLPGB operand decoding, coverage / per-request maximum / no-gap-crossing predicates) and of flush tokens (PageTables.tla); TLC trace validation of the instructions trapped while the real flush wrappers run",
+    "C11": dict(ref="§5 C11", tech="TLA+ spec of TLB-invalidation requests (Cpu.tla: INVLPG/INVPCID/INVLPGB operand decoding, coverage / per-request maximum / no-gap-crossing predicates) and of flush tokens (PageTables.tla); TLC trace validation of the instructions trapped while the real flush wrappers run; MC_PT_tlb design check (a stale TLB entry is always covered by a pending token); all-pages broadcast flush, ASID range check, very long ranges under a watchdog",
                 text="Every trapped invlpg / mov-cr3 / invpcid / invlpgb / tlbsync executed by tlb::flush, flush_all, flush_pcid, MapperFlush::flush, MapperFlushAll::flush_all and InvlpgbFlushBuilder::flush (debug+release) is decoded by the specification and checked against the call's arguments: exactly one invalidation of the given address; CR3 reloaded with its current value; descriptor = (PCID, address, kind); broadcast requests sequentially cover the range, counts <= processor maximum, options carried, no request crosses the non-canonical gap (count = additional pages, APM); every successful mapper call of a recorded page-table history returns a token naming the argument page. Found and fixed F9, F10.",
                 note=TB_CPU),
     "C17": dict(ref="§5 C17", tech="TLA+ state machine of the interrupt flag under nested without_interrupts (MC_Intr.tla) model-checked by TLC and proved inductive for every nesting depth with TLAPS (spec/proofs/IntrProof.tla, 257 obligations, re-checked by every run); TLC trace validation (Trace_Cpu.tla) of all small programs, random deep programs and a window probe (closure loads/stores stay between cli and sti) executed on the real functions with cli/sti/hlt trapped",
@@ -71,7 +71,7 @@ CLAIMS["C20"] = dict(ref="§5 C20", tech="TLA+ spec of recursive table addresses
     text="TLC checks for all scaled (page, index) pairs that the recursive addresses have indices (R,R,R,p4)/(R,R,p4,p3)/(R,p4,p3,p2), are canonical and page-aligned, and explores the page-table state machine with a recursive slot; on the real crate: new() over recursive and near-recursive table addresses x root-register contents x slot contents must answer Ok/NotRecursive/NotActive exactly as specified and use the common index; every recursive-region page the mapper touches during random histories must be one the property names for that call and reach the frame the specification's hardware walk reaches; the computed table pages are compared for all 512 indices x lattice pages x 3 sizes.",
     note=TB_PT)
 
-CLAIMS["C16"] = dict(ref="§5 C16", tech="TLA+ contracts of typed/raw/update register accesses (Cpu.tla TypedWriteVal/UpdateVal, checked for all 8-bit contents x masks x arguments by TLC in MC_Regs) and per-wrapper contracts on the trapped instruction stream (Trace_Cpu.tla RegContract); TLC trace validation of the real wrappers running on the trap-and-emulate CPU",
+CLAIMS["C16"] = dict(ref="§5 C16", tech="TLA+ contracts of typed/raw/update register accesses (Cpu.tla TypedWriteVal/UpdateVal, checked for all 8-bit contents x masks x arguments by TLC in MC_Regs) and per-wrapper contracts on the trapped instruction stream (Trace_Cpu.tla RegContract); TLC trace validation of the real wrappers running on the trap-and-emulate CPU; in-function read/write/read and double-update sequences (release build) so that wrong asm options (pure/nomem/nostack) show; red-zone probe for the RFLAGS accessors",
     text="For every wrapper and API the emulated register is preset, the compiled wrapper runs (debug+release) and every privileged instruction it executes traps; TLC checks that all instructions address the register the wrapper is named after (CR/DR number, MSR index in ECX), that the operand seen by the CPU (EDX:EAX, source register) is the value the contract prescribes - typed write = unmodelled bits of the previous content | given fields, raw write exact, read = modelled bits, update = read-modify-write, documented invalid STAR/XCR0 combinations rejected with no write instruction - and the return values. Found and fixed F8 (ApicBase::write).",
     note=TB_CPU + " Natively executing accesses (selector reads, FS/GS base, xgetbv, rflags, mxcsr) are compared with independent inline asm of the harness and limited to values ring 3 may load; FS::write_base is only exercised with the current base. SFMask/Pat/UCet/SCet/address MSR presets are restricted to contents the hardware can hold (the typed reads unwrap).")
 
@@ -79,14 +79,14 @@ CLAIMS["C08"] = dict(ref="§5 C08", tech="TLA+ state machine of a page-table ent
     text="TLC explores the entry state machine at scaled width (every aligned address, every flag set, every sequence of set_addr/set_flags/set_unused) with ghost address/flags and checks independence, read-back, unused <=> zero, frame <=> present; on the real crate random entry programs log the raw u64 before/after each step and every getter, and a table is written at all 512 slots through each access path and read back through all paths and as raw little-endian bytes at offset 8i, with new/zero/is_empty/clone/default, size and alignment.",
     note=TB_PURE)
 
-CLAIMS["C14"] = dict(ref="§5 C14", tech="TLA+ state machine of the GDT (Gdt.tla) model-checked by TLC over all append sequences for capacities 1..6 (MC_Gdt: null first, order, capacity, refused append is a no-op, selector = first slot/GDT/DPL, limit); TLC trace validation (Trace_Gdt.tla) of append histories, from_raw_entries and the trapped lgdt operand on the real type for MAX in {1,2,3,8,9,8192}",
+CLAIMS["C14"] = dict(ref="§5 C14", tech="TLA+ state machine of the GDT (Gdt.tla) model-checked by TLC over all append sequences for capacities 1..6 (MC_Gdt: null first, order, capacity, refused append is a no-op, selector = first slot/GDT/DPL, limit); TLC trace validation (Trace_Gdt.tla) of append histories, from_raw_entries and the trapped lgdt operand on the real type for MAX in {1,2,3,8,9,8192}; cross-structure delivery check (Machine.tla / Trace_Machine.tla)",
     text="TLC explores every append sequence over user/system descriptors of all DPLs for capacities 1..6 and checks the table invariants and that selectors never overlap; the real GlobalDescriptorTable is driven with random sequences until and beyond capacity for MAX in {1,2,3,8,9,8192}; after each append TLC compares selector, length, limit and the tail of entries() with the state machine (a panicking append must leave the table unchanged), then the complete table, the clone, the lgdt operand (base = address of entries()[0], limit = 8*slots-1) and from_raw_entries incl. its refusal cases.",
     note=TB_CPU)
-CLAIMS["C15"] = dict(ref="§5 C15", tech="TLA+ decoders of the architectural descriptor formats (Gdt.tla DecodeSys/DecodeUser/TssDescriptorOK/PresetOK; encode-decode round trip checked by TLC); TLC trace validation of tss_segment*, the predefined descriptors, dpl() and the TSS / descriptor-table-pointer layouts of the real crate",
+CLAIMS["C15"] = dict(ref="§5 C15", tech="TLA+ decoders of the architectural descriptor formats (Gdt.tla DecodeSys/DecodeUser/TssDescriptorOK/PresetOK; encode-decode round trip checked by TLC); TLC trace validation of tss_segment*, the predefined descriptors, dpl() and the TSS / descriptor-table-pointer layouts of the real crate; cross-structure delivery check (Machine.tla / Trace_Machine.tla: ltr and IST/RSP0 stacks read from the raw TSS image)",
     text="The TSS descriptor returned for every pointer of the 64-bit boundary lattice and random pointers is decoded by the specification per the 16-byte system-descriptor format and must give base = pointer, limit 0x67, type 9, present, DPL 0, all reserved bits zero; predefined code/data descriptors and flag presets must decode to what their names state; dpl() = bits 45-46; field offsets, sizes, iomap_base = 0x68 and the raw bytes of a DescriptorTablePointer are compared with the manual's layout.",
     note=TB_PURE.replace("the declarative lemmas in the specification", "the descriptor decoders in Gdt.tla"))
 
-CLAIMS["C12"] = dict(ref="§5 C12", tech="TLA+ model of the IDT with the architectural 64-bit gate encoding (Idt.tla; setters as a state machine checked by TLC in MC_Idt: own field of own gate only, encode/decode round trip, reserved bits zero); TLC trace validation (Trace_Idt.tla) of raw-byte diffs of the real table after every call, of index/range access and of the trapped lidt operand",
+CLAIMS["C12"] = dict(ref="§5 C12", tech="TLA+ model of the IDT with the architectural 64-bit gate encoding (Idt.tla; setters as a state machine checked by TLC in MC_Idt: own field of own gate only, encode/decode round trip, reserved bits zero); TLC trace validation (Trace_Idt.tla) of raw-byte diffs of the real table after every call, of index/range access and of the trapped lidt operand; cross-structure delivery check (Machine.tla / Trace_Machine.tla: every vector delivered over the raw IDT/GDT/TSS memory handed to the emulated CPU)",
     text="TLC explores all setter sequences on a restricted vector domain and checks that every setter changes only its field of its gate and that gates encode/decode per the architectural layout; on the real crate, for all 256 vectors and every access path, handler installation and random option-setter sequences are recorded with the raw 16-byte gates that changed and TLC compares them with the encoding of the specification's gate (address, current CS, present, interrupt gate, DPL 0, IST 0; setters change only their field; handler_addr reads back); Index<u8> offset = 16v or refusal exactly on reserved/error-code/diverging vectors; every RangeBounds form gives the slice at byte 16*lower of length upper-lower or refuses below vector 32; untouched/reset tables are all non-present interrupt gates; lidt gets the table address and limit 4095.",
     note=TB_CPU)
 
